@@ -44,6 +44,43 @@ def unicode_strings(r: random.Random, n: int) -> list[str]:
     return out
 
 
+def literal_sources(r: random.Random, n: int) -> list[str]:
+    """programs around string literals spelled with every kind of escape the grammar admits (`\\` + any character),
+    quotes of the other kind, both triple-quote forms, language strings, comments next to them"""
+    esc_chars = "nrt\\'\"%dxu0 {}()/*#@$~äé日\U0001F600"
+    plain = "abc XYZ 019 _,.;:!?-+=<>[]{}()/*@$~%&|^äé日"
+    out = []
+    for _ in range(n):
+        parts = []
+        for _ in range(r.randint(1, 3)):
+            q = r.choice(["'", '"', "'''", '"""'])
+            body = ""
+            for _ in range(r.randint(0, 8)):
+                x = r.random()
+                if x < 0.35:
+                    body += "\\" + r.choice(esc_chars)
+                elif x < 0.45:
+                    body += r.choice(["'", '"']) if len(q) == 3 else ("'" if q == '"' else '"')
+                elif x < 0.5 and len(q) == 3:
+                    body += "\n" + " " * r.randint(0, 4)
+                else:
+                    body += r.choice(plain)
+            if len(q) == 3 and body.endswith(q[0]):
+                body += " "
+            parts.append(q + body + q)
+        form = r.randrange(4)
+        if form == 0:
+            stmt = f"op({', '.join(parts)});"
+        elif form == 1:
+            stmt = f"op({{english={parts[0]}, german={parts[-1]}}});"
+        elif form == 2:
+            stmt = f"message_SwitchTalk ($V) {{\n        case 1:\n            {parts[0]}\n    }}"
+        else:
+            stmt = f"op({parts[0]}); /* {r.choice(plain)} */ op2({parts[-1]}); // tail {r.choice(plain)}"
+        out.append("def 0 {\n    " + stmt + "\n    end;\n}\n")
+    return out
+
+
 def main() -> None:
     run = Run("C17", "exploration")
     run.forbid()
@@ -59,8 +96,16 @@ def main() -> None:
     for i in range(200 if q else 3000):
         g = Gen(random.Random(f"C17-{run.seed}-{i}"), Cfg(max_depth=2, max_block=3))
         progs.append(print_prog(g.program()))
-    comp = run_impl([("compile", p) for p in progs])
-    texts += [(p, c["ok"]) for p, c in zip(progs, comp)]
+    # re-spellings of the same programs (comments and line joining at token boundaries, quote styles, number bases, ..)
+    var = run_impl([("checks.c16:variants", p, f"C17-{run.seed}-{i}", 2) for i, p in enumerate(progs[: (100 if q else 1500)])])
+    for v in var:
+        if v.get("ok"):
+            progs += v["variants"]
+    progs += literal_sources(r, 400 if q else 6000)
+    texts += [(p, False) for p in progs]
+    # whether the compiler accepts a text is asked of the compiler, for every text
+    comp = run_impl([("compile", t) for t, _ in texts])
+    texts = [(t, c["ok"]) for (t, _), c in zip(texts, comp)]
     res = run_impl([("checks.c17:lex_case", t, acc) for t, acc in texts])
     for (t, acc), o in zip(texts, res):
         run.case(t, nontrivial=len(t) > 0)
